@@ -16,7 +16,7 @@ THEOREMS = ["PyOak.C14." + t for t in ['dup_fresh', 'dup_copy', 'dup_independent
 RULE = ("random histories (<= 24 ops) with 30% construct, 30% duplicate/replace/dataclasses.replace (single- and "
         "multi-field changes of comparable / non-comparable props, children, origin; replace raising), rest detach / "
         "as_obj / alias / del, on registered and detached originals with and without registered twins, shared subtrees; "
-        "ID_DIGEST_SIZE in {8, 2}; non-trivial = history with >= 8 ops; distinct by request line")
+        "ID_DIGEST_SIZE in {8, 2, 1}; non-trivial = history with >= 8 ops; distinct by request line")
 TRUSTED = ["dataclasses.replace copies init fields by reference and re-runs __post_init__ (CPython)"]
 ASSUMPTIONS = []
 BUDGET = {"quick": 240, "thorough": 2400}
@@ -25,7 +25,7 @@ BUDGET = {"quick": 240, "thorough": 2400}
 def cases(rng: random.Random, tier: str):
     n = 120 if tier == "quick" else 3000
     for _ in range(n):
-        size = rng.choice([8, 8, 2])
+        size = rng.choice([8, 8, 2, 1])
         nops = rng.choice([6, 10, 16, 24])
         with Machine(rng, size, profile="copy") as m:
             for _k in range(nops):
